@@ -22,5 +22,8 @@ def main():
     rows = [l for l in ms.splitlines() if l.startswith('<<"')]
     if rc3 != 0 or len(rows) != 8 or any("FALSE" in r for r in rows):
         print("ModelSanity failed:\n" + ms[-2000:]); return 2
+    rc4, js = vlib.tlc("JacobianSanity", timeout=900)
+    if rc4 != 0 or js.count("JSANITY") != 8 or "FALSE" in js or js.count("TRUE") != 120:
+        print("JacobianSanity failed (the Jacobian formulas of the specification disagree with the literal definition):\n" + js[-2000:]); return 2
     print("setup ok: overrides == pure definitions on %d result lines; model sanity %d groups" % (len(a), len(rows)))
     return 0
